@@ -28,6 +28,8 @@
 //! re-scanned (handles in index order: namespace attributes, attributes, children) and nodes not yet
 //! known are appended, so ids in the output are handle indices = "renumbered by first appearance".
 //! A panic inside an op is an outcome (`panic`), the case goes on with whatever state is left.
+//! A state in which a node is beneath itself is dumped in degraded form (navigation only, keys 0, no
+//! serialisation, word `cycle=<h>` at the end) and ends the case: every walk here is bounded.
 use crate::util::{dec, enc};
 use std::collections::HashMap;
 use std::panic::{catch_unwind, AssertUnwindSafe};
@@ -227,10 +229,61 @@ fn data_of(n: &XmlNode) -> String {
     }
 }
 
+/// A node that is beneath itself (a defect of the tree invariant, C12): the handle where a walk of the
+/// child / attribute lists meets a node that is already on the path.  The walk is iterative and bounded
+/// by the number of handles, so it terminates on any structure.
+fn find_cycle(st: &St) -> Option<usize> {
+    let n = st.hs.len();
+    let mut adj: Vec<Vec<usize>> = Vec::with_capacity(n);
+    for (d, node) in st.hs.iter() {
+        let (ns, at, ch) = parts(node);
+        adj.push(
+            ns.iter()
+                .chain(at.iter())
+                .chain(ch.iter())
+                .filter_map(|x| st.find(*d, x))
+                .collect(),
+        );
+    }
+    // 0 = unseen, 1 = on the path, 2 = done
+    let mut color = vec![0u8; n];
+    for root in 0..n {
+        if color[root] != 0 {
+            continue;
+        }
+        let mut stack: Vec<(usize, usize)> = vec![(root, 0)];
+        color[root] = 1;
+        while let Some((h, i)) = stack.pop() {
+            if i < adj[h].len() {
+                stack.push((h, i + 1));
+                let c = adj[h][i];
+                if color[c] == 1 {
+                    return Some(c);
+                }
+                if color[c] == 0 {
+                    color[c] = 1;
+                    stack.push((c, 0));
+                }
+            } else {
+                color[h] = 2;
+            }
+        }
+    }
+    None
+}
+
 fn dump(st: &St) -> String {
     let mut out: Vec<String> = vec![];
+    // Serialisation, order keys and the content walks recurse along the child lists (in the library
+    // and here): on a cyclic structure they would not terminate.  Such a state is reported with a
+    // degraded dump -- navigation only, keys 0, no serialisation -- and the word `cycle=<h>`.
+    let cycle = find_cycle(st);
     // order keys -> ranks per document
-    let keys: Vec<usize> = st.hs.iter().map(|(_, n)| n.order()).collect();
+    let keys: Vec<usize> = st
+        .hs
+        .iter()
+        .map(|(_, n)| if cycle.is_some() { 0 } else { n.order() })
+        .collect();
     let mut per_doc: HashMap<usize, Vec<usize>> = HashMap::new();
     for (i, (d, _)) in st.hs.iter().enumerate() {
         if keys[i] != 0 {
@@ -306,6 +359,10 @@ fn dump(st: &St) -> String {
     }
     st.set_view(false);
     out.append(&mut raw);
+    if let Some(h) = cycle {
+        out.push(format!("cycle={}", h));
+        return out.join(" ");
+    }
     for (k, d) in st.docs.iter().enumerate() {
         if let Some(dm) = &d.dom {
             out.push(format!("S{}={}", k, enc(&dm.to_string())));
@@ -954,7 +1011,12 @@ pub fn case(line: &str) -> String {
         } else {
             catch_unwind(AssertUnwindSafe(|| dump(&st))).unwrap_or_else(|_| "dump-panic".to_string())
         };
+        let cyclic = d.contains(" cycle=");
         recs.push(format!("{} # {}", res, d));
+        if cyclic || find_cycle(&st).is_some() {
+            // navigation and serialisation inside later calls may not terminate: the case ends here
+            break;
+        }
     }
     recs.join(" | ")
 }
